@@ -1,5 +1,7 @@
 import Enc.Model.Json.Scan
 import Enc.Model.Json.Stream
+import Enc.Model.Json.Token
+import Enc.Spec.Json.Tokens
 import Enc.Spec.Json.Grammar
 /-! line-protocol handlers, area `json` (syntax layer). -/
 namespace Enc.Driver.Json
@@ -56,6 +58,21 @@ def handle (op : String) (args : List String) : Option (String × String × Stri
       | some r => "ok:" ++ toHex (Spec.Json.ws r)
       | none => "err"
     pure (m, s, "")
+  -- json.tokens <hex>: the whole token stream, one record per token `delim/valuehex/depth/index/iskey`, then END|ERR
+  | "json.tokens", [h] => do
+    let b ← fromHex h
+    let (toks, err) := Model.Json.Token.tokens b
+    let showT (t : Model.Json.Token.Tok) : String :=
+      s!"{t.delim.toNat}/{toHex t.value}/{t.depth}/{t.index}/{boolStr t.isKey}/{t.remaining}"
+    let m := String.intercalate ";" (toks.map showT ++ [if err then "ERR" else "END"])
+    pure (m, "-", "")
+  -- json.tokspec <hex>: for a VALID document, the token stream as the grammar-directed specification defines it
+  | "json.tokspec", [h] => do
+    let b ← fromHex h
+    let s := match Spec.Json.tokensOf b with
+      | some ts => String.intercalate ";" (ts.map fun t => s!"{t.delim.toNat}/{toHex t.value}/{t.depth}/{t.index}/{boolStr t.isKey}")
+      | none => "invalid"
+    pure ("-", s, "")
   | _, _ => none
 
 end Enc.Driver.Json
